@@ -119,3 +119,20 @@ Example C04_nonvacuous :
             └─ p1 vs2, for which no candidates were found.
 "%string.
 Proof. vm_compute. reflexivity. Qed.
+
+(* ---- a panic class of the solver excluded by proof.  Clause::requires and
+   Clause::constrains start with
+       assert_ne!(decision_tracker.assigned_value(parent), Some(false))
+   (reachable before fix caf291c).  In the encoder model (Async/Encoder.v, tied
+   to encoding.rs clause for clause on every run): whenever the result of a
+   dependencies / requirement / constraint future of a solvable is handled, that
+   solvable is not assigned false -- for every provider, problem, cache
+   contents and completion order, provided encode requests are only made for
+   variables assigned true and the trail is consistent and does not change
+   while futures are pending (both evaluated on every run). ---- *)
+From Resolvo Require Import Async.EncoderSafe.
+
+Theorem C04_requires_assert_cannot_fail : forall U P c evs,
+  quiet_ok U P (estate0 c) nil nil evs = true -> req_true_ok nil evs = true ->
+  assert_ok U P (estate0 c) nil nil evs = true.
+Proof. exact enc_assert_safe. Qed.
